@@ -260,7 +260,7 @@ fn kind_ops<F: FftField + PrimeField, D: Dom<F>>(id: &str, caps: &Caps, thorough
             }
             continue;
         }
-        if m <= caps.all_len && !(general && m > 16) && !caps.light {
+        if m <= caps.all_len && !(general && (m > 16 || (big && !thorough))) && !caps.light {
             for len in 0..=m {
                 for (oi, off) in offs.iter().enumerate() {
                     if m > 16 && oi != len % 3 { continue; }
@@ -292,7 +292,7 @@ fn kind_ops<F: FftField + PrimeField, D: Dom<F>>(id: &str, caps: &Caps, thorough
                 transforms::<F, D>(id, &d, offs[len % 2], &c, 3, out);
             }
         } else {
-            let lens = if caps.light { vec![0, 1, m / 4, m / 4 + 1, m] } else if big && !thorough { vec![0, 1, m / 8 + 1, m / 4, m / 4 + 1, m - 1, m] } else { edge_lens(m) };
+            let lens = if caps.light || (big && !thorough && general) { vec![0, 1, m / 4, m / 4 + 1, m] } else if big && !thorough { vec![0, 1, m / 8 + 1, m / 4, m / 4 + 1, m] } else { edge_lens(m) };
             for (li, &len) in lens.iter().enumerate() {
                 let c = rvec::<F>(rng, len);
                 let off = offs[li % 3];
@@ -353,7 +353,7 @@ fn kind_ops<F: FftField + PrimeField, D: Dom<F>>(id: &str, caps: &Caps, thorough
                     out.line(&format!("C07 filter {}", pfx), &guarded(|| hl(&cd.filter_polynomial(&cs).coeffs)));
                     let contained = n % m == 0 && soff.pow([n as u64]) == doff.pow([n as u64]);
                     if contained {
-                        let taus = if n <= 8 || thorough { vec![cd.element(0), cd.element(1), cs.element(m - 1), F::zero(), rnd(rng)] } else { vec![cd.element(1), cs.element(m - 1), rnd(rng)] };
+                        let taus = if big_quick && n > 4 { vec![cs.element(m - 1), rnd(rng)] } else if n <= 8 || thorough { vec![cd.element(0), cd.element(1), cs.element(m - 1), F::zero(), rnd(rng)] } else { vec![cd.element(1), cs.element(m - 1), rnd(rng)] };
                         for tau in taus {
                             out.line(&format!("C07 filterat {} {}", pfx, h(&tau)), &guarded(|| h(&cd.evaluate_filter_polynomial(&cs, tau))));
                         }
@@ -443,9 +443,9 @@ fn main() {
     // shipped fields
     field_ops::<bls12_381::Fr>("bls381fr", c(16, 64, 1 << 10, 1 << 13, 32), th, rng, out, only);
     field_ops::<bn384::Fq>("bn384fq", c(12, 36, 1 << 8, 1 << 12, 18), th, rng, out, only);
-    field_ops::<bn384::Fr>("bn384fr", Caps { light: true, ..c(0, 0, 1 << 8, 1 << 10, 0) }, th, rng, out, only);
+    field_ops::<bn384::Fr>("bn384fr", Caps { light: true, ..c(0, 0, 1 << 7, 1 << 10, 0) }, th, rng, out, only);
     field_ops::<mnt4_753::Fr>("mnt4753fr", c(8, 32, 1 << 8, 1 << 11, 10), th, rng, out, only);
-    field_ops::<mnt4_753::Fq>("mnt4753fq", Caps { light: true, ..c(0, 0, 1 << 8, 1 << 9, 0) }, th, rng, out, only);
+    field_ops::<mnt4_753::Fq>("mnt4753fq", Caps { light: true, ..c(0, 0, 1 << 7, 1 << 9, 0) }, th, rng, out, only);
     field_ops::<secp256k1::Fr>("secp256k1fr", Caps { light: true, ..c(0, 0, 64, 64, 0) }, th, rng, out, only);
     out.flush();
 }
